@@ -4,6 +4,7 @@ var GeneratorClass *Class // ::Std::Generator
 
 func initGenerator() {
 	GeneratorClass = NewClass()
+	GeneratorClass.IncludeMixin(IteratorBaseMixin)
 	StdModule.AddConstantString("Generator", Ref(GeneratorClass))
 	RegisterNativeClass("Std::Generator", "value.GeneratorClass")
 }
